@@ -11,7 +11,11 @@ from vlib.runner import hyp
 
 PROPERTY = 'C03'
 LEVEL = 'exploration'
-RULE = ('decode: every byte string up to 2 (quick) / 3 (thorough) bytes, '
+RULE = ('Overlapping calls: every line of every VarInt/VarLong send / read '
+        '/ size call on 8 boundary values as a suspension point at which '
+        'another such call runs to completion (harness-owned preemption); '
+        'each call must produce what it produces alone. '
+        'decode: every byte string up to 2 (quick) / 3 (thorough) bytes, '
         'every continuation-bit shape up to 13 bytes x uniform payload bits '
         '{00,01,7F}, Hypothesis byte strings biased to continuation bytes, '
         'each followed by random trailing bytes; oracle = reference lenient '
